@@ -1,5 +1,6 @@
 """C15 - EUI-64, host:port and URL helpers round-trip."""
 import ipaddress
+import re
 from urllib import parse as _parse
 
 from ..core import rxmodel
@@ -66,7 +67,23 @@ def _setup(types=None, extra=None):
     return setup
 
 
+MAC_NOTATIONS = re.compile(
+    r'(?:[0-9a-f]{2}([:-])(?:[0-9a-f]{2}\1){4}[0-9a-f]{2}|'
+    r'[0-9a-f]{4}\.[0-9a-f]{4}\.[0-9a-f]{4}|[0-9a-f]{12})\Z', re.I)
+
+
 def modified_eui64(mac):
+    if MAC_NOTATIONS.match(mac):
+        # IEEE dash / colon pairs, Cisco dotted quads, bare hexadecimal
+        h = re.sub('[-:.]', '', mac)
+        mac = ':'.join(h[i:i + 2] for i in range(0, 12, 2))
+    elif mac != mac.strip() or re.match(r'[0-9a-f]{1,2}(:[0-9a-f]{1,2}){5}\Z',
+                                        mac.strip(), re.I):
+        # padded or single-digit groups: neither clearly well-formed nor
+        # clearly malformed - outside the decided domain
+        raise LookupError(mac)
+    if len(mac.split(':')) != 6:
+        raise ValueError(mac)
     b = bytes(int(x, 16) for x in mac.split(':'))
     iid = bytes([b[0] ^ 0x02]) + b[1:3] + b'\xff\xfe' + b[3:]
     return int.from_bytes(iid, 'big')
@@ -127,11 +144,15 @@ def _forward(ctx):
                 return ('raise', ('ValueError', 'TypeError'))
             if net.version == 4:
                 return ('raise', 'ValueError')
+            if net.prefixlen > 64 and net.prefixlen != 128 or '%' in p:
+                # no room for a 64-bit interface identifier / zoned network:
+                # the statement does not say what happens
+                return None
             try:
                 iid = modified_eui64(m)
+            except LookupError:
+                return None
             except (ValueError, IndexError):
-                return ('raise', ('ValueError', 'TypeError'))
-            if len(m.split(':')) != 6:
                 return ('raise', ('ValueError', 'TypeError'))
             return ('return', int(net.network_address) + iid)
 
@@ -142,8 +163,26 @@ def _forward(ctx):
                 return False
         if kind == 'str':
             grid = {prefix: PREFIXES + ('10.0.0.0/8', '1.2.3.4', 'garbage',
-                                        '2001:db8::/129', ''),
+                                        '2001:db8::/129', '',
+                                        '2001:db8::/ 64', '2001:db8::/64\n',
+                                        '2001:db8::/+64', '2001:db8::/'),
                     mac: MACS + ('garbage', '00:16:3e:33:44')}
+            if ctx.thorough:
+                grid[prefix] += (
+                    '::/0', '::/128', '2001:db8::ffff/127', 'ff00::/8',
+                    '2001:db8::', '::ffff:1.2.3.4/96', '2001:db8::/-1',
+                    '2001:db8::/ 64', '2001:db8::/64 ', '2001:db8::/+64',
+                    '2001:db8::/64\n', '2001:db8::/64/64', '2001:db8::/',
+                    '/64', '2001:db8::/ffff::', '0.0.0.0/0', '1.2.3.4/32',
+                    '1.2.3', 'fe80::1%eth0/64', '[2001:db8::]/64',
+                    '2001:db8::/064')
+                grid[mac] += tuple(
+                    '%02x:16:3e:00:00:01' % b for b in (
+                        0x00, 0x01, 0x02, 0x03, 0x7f, 0x80, 0xfc, 0xfe)) + (
+                    'FA:16:3E:33:44:55', '00-16-3e-33-44-55',
+                    '0016.3e33.4455', '00163e334455', '00:16:3e:33:44:5g',
+                    '00:16:3e:33:44:55:66', ' 00:16:3e:33:44:55', '',
+                    '0:16:3e:33:44:55', '00:16:3e:33:44:55\n')
         else:
             grid = {prefix: (None, 5, b'fe80::/64'), mac: MACS[:1]}
         grid_compare(rep, 'R15.1' if kind == 'str' else 'R15.2',
